@@ -11,8 +11,10 @@ from ..astutil import (
 from ..evalx import has_unknown
 from ..index import ClassInfo
 from ..oracles import load as load_oracle
-from ..report import Registry, sub
+from ..report import Registry, chain, sub
 from ._helpers_rules_a import Mini, Unsupported, self_attr
+from ._helpers_rules_b import call_sites
+from . import _helpers_str_c as KS
 
 R = Registry(
     "C04",
@@ -24,10 +26,17 @@ R = Registry(
         "bind-name escape table covers the template metacharacters, maps into word characters, is the single "
         "source of the translate regex, and escaped names are guarded against colliding with another name; "
         "_process_positional/_process_numeric leave ORIGINAL (unescaped) names in positiontup and look the "
-        "statement text up by ESCAPED names."
+        "statement text up by ESCAPED names; in every function that handles both name spaces (all users of "
+        "escaped_bind_names / bindtemplate) a name reaches a placeholder template only after the escape "
+        "translation, and no keyed collection is addressed with names of both spaces (original names: bind_names, "
+        "binds, positiontup, crud bind keys, compiled_parameters; escaped names: statement text, DBAPI-level "
+        "parameter dictionaries); every expression of an upsert clause that is rendered after VALUES is processed "
+        "with is_upsert_set=True by every dialect, and SQLCompiler.visit_bindparam evaluates the per-row "
+        "parameter detection before any placeholder is rendered, for every bindparam() without a fixed value."
     ),
-    not_decided="the order of positiontup for arbitrary statements, expanding / literal_execute interaction, "
-                "driver behaviour.",
+    not_decided="the order of positiontup for arbitrary statements, the values of expanding / literal_execute "
+                "parameters, driver behaviour; bind names of the two spaces that are compared as plain text "
+                "(regular expressions over the statement).",
 )
 
 COMP = "sql/compiler.py"
@@ -336,6 +345,157 @@ def r3(ctx):
               "only real binds are numbered", pn.loc)
 
 
+# ------------------------------------------------------------------------------------------ R4
+# contracts of functions whose parameters are defined to live in a given space (documented signature)
+KS_CONTRACTS = {
+    # bindparam_string(name, escaped_from=None, accumulate_bind_names=None, visited_bindparam=None): `name` is the
+    # original bind name unless `escaped_from` is given, in which case `name` is already the escaped form of it;
+    # the two accumulators collect original names (crud bind keys / positional counting).
+    "bindparam_string": (
+        lambda: {"name": KS.NameV(KS.RAW), "escaped_from": KS.NameV(KS.RAW),
+                 "accumulate_bind_names": KS.CollV(KS.NameV(KS.RAW)), "visited_bindparam": KS.CollV(KS.NameV(KS.RAW))},
+        lambda: {"escaped_from": {"name": KS.NameV(KS.ESC)}},
+    ),
+}
+KS_MARKERS = ("escaped_bind_names", "bindtemplate", "compilation_bindtemplate")
+SPACE_WORD = {KS.RAW: "ORIGINAL (unescaped)", KS.ESC: "ESCAPED", KS.BOTH: "escape-neutral", KS.MIX: "sometimes original, sometimes escaped"}
+
+
+def _ks_functions(ctx):
+    out = []
+    for m in ctx.index.all_modules():
+        if m.relpath.startswith("testing/") or not any(k in m.source for k in KS_MARKERS):
+            continue
+        for f in ctx.index.all_functions(m):
+            if f.type_only or f.is_overload:
+                continue
+            hit = False
+            for n in ast.walk(f.node):
+                if isinstance(n, ast.Attribute) and n.attr in KS_MARKERS and isinstance(n.ctx, ast.Load):
+                    hit = True
+                    break
+            # nested functions are analysed with their enclosing function
+            if hit and not any(f is not g and g.node is not f.node and f.node in list(ast.walk(g.node))
+                               for g in ctx.index.all_functions(m) if g.node.lineno <= f.node.lineno <= getattr(g.node, "end_lineno", 0) and g is not f):
+                out.append(f)
+    return sorted(out, key=lambda f: f.key)
+
+
+def _ks_run(ctx, f, cache, param_vals=None):
+    ck = (f.key, None if param_vals is None else tuple(sorted((k, repr(v)) for k, v in param_vals.items())))
+    if ck in cache:
+        return cache[ck]
+    pv, rt = {}, {}
+    if f.name in KS_CONTRACTS:
+        pv, rt = KS_CONTRACTS[f.name][0](), KS_CONTRACTS[f.name][1]()
+    if param_vals:
+        pv.update(param_vals)
+    ectx = ctx.index.cls(f"{DEFAULT}::DefaultExecutionContext")
+    is_ctx = f.cls is not None and ctx.index.is_subclass(f.cls, ectx)
+
+    def resolve_method(nm, f=f):
+        if f.cls is None:
+            return None
+        r = ctx.index.resolve_method(f.cls, nm)
+        return r.node if r is not None and r.node is not f.node else None
+
+    ks = KS.KeySpace(f.node, pv, rt, exec_ctx=is_ctx, resolve_method=resolve_method).run()
+    ctx.functions_analysed.add(f.key)
+    cache[ck] = ks
+    return ks
+
+
+def _bind_from_callers(ctx, f, cache):
+    """Parameter values of `f` = join over all call sites in the package of the argument values."""
+    pv = {}
+    params = [p for p in f.params if p not in ("self", "cls")]
+    sites = call_sites(ctx.index, f)
+    for caller, call in sites:
+        # the enclosing *indexed* function may be nested in another one: analyse the outermost
+        ks = _ks_run(ctx, caller, cache)
+        args = ks.calls.get(id(call))
+        if args is None:
+            continue
+        for p, a in zip(params, args):
+            pv[p] = KS.join(pv[p], a) if p in pv else a
+        for k, a in ks.call_kw.get(id(call), {}).items():
+            if k in params:
+                pv[k] = KS.join(pv[k], a) if k in pv else a
+    return pv, sites
+
+
+@R.rule("C04-R4", floor=30, template="T-FLOW",
+        desc="bind-name key spaces: in every function that uses escaped_bind_names / a bind template, a name is "
+             "formatted into a placeholder (or post-compile marker) only after the escape translation, and every "
+             "lookup / membership test / set operation / store relates names of one space only (original vs escaped)")
+def r4(ctx):
+    cache = {}
+    funcs = _ks_functions(ctx)
+    ctx.require(len(funcs) >= 9, f"only {len(funcs)} functions use escaped_bind_names / bindtemplate (expected the compiler, "
+                                 f"the execution context and the oracle out-parameter code)")
+    seen_attrs = set()
+    nsinks = 0
+    for f in funcs:
+        ks = _ks_run(ctx, f, cache)
+        if any(s.space in (KS.UNK, KS.BOT) for s in ks.sinks) and f.name not in KS_CONTRACTS:
+            pv, sites = _bind_from_callers(ctx, f, cache)
+            if pv:
+                ks = _ks_run(ctx, f, cache, pv)
+        seen_attrs |= ks.attrs_seen
+        loc = lambda ln, f=f: f"{f.module.path}:{ln}"
+        # (a) sinks
+        counts = {}
+        for s_ in ks.sinks:
+            scope = "" if s_.scope == f.name else ":" + s_.scope
+            base = f"{f.key}:{'placeholder-name' if s_.kind == 'template' else 'postcompile-marker-name'}{scope}"
+            counts[base] = counts.get(base, 0) + 1
+            key = base if counts[base] == 1 else f"{base}#{counts[base]}"
+            nsinks += 1
+            if s_.space in (KS.UNK, KS.BOT):
+                ctx.error(f"{key}: cannot tell in which name space `{s_.expr}` lives (line {s_.lineno}); "
+                          f"the rule does not understand how it is computed")
+            ctx.check(s_.space in (KS.ESC, KS.BOTH), key,
+                      f"`{s_.expr}` is formatted into the {'bind template' if s_.kind == 'template' else 'post-compile marker'} "
+                      f"but is {SPACE_WORD.get(s_.space, s_.space)}: it did not pass through the escape translation "
+                      f"(`escaped_bind_names.get(k, k)` / the translate regex), so for a bind whose name needs escaping "
+                      f"(`a.b`, `a b`, `a%b`) the generated text does not match the placeholder in the statement",
+                      f"`{s_.expr}` is {SPACE_WORD.get(s_.space, s_.space)}", loc(s_.lineno))
+        # (b) receivers
+        by_recv = {}
+        for o in ks.obs:
+            by_recv.setdefault(o.recv, []).append(o)
+        for recv, obs in sorted(by_recv.items()):
+            definite = [o for o in obs if o.definite() and (o.recv_space in KS.DEFINITE or o.idx_space in KS.DEFINITE)]
+            bad = [o for o in obs if o.mismatch()]
+            if not bad and len(definite) < 1:
+                continue
+            key = f"{f.key}:keyspace:{recv}"
+            if bad:
+                o = bad[0]
+                ctx.violation(key,
+                              f"`{recv}` holds {SPACE_WORD[o.recv_space]} bind names but is addressed (`{o.how.strip()}`, line {o.lineno}) "
+                              f"with an {SPACE_WORD[o.idx_space]} name"
+                              + (f"; other uses: {[(x.how.strip(), x.idx_space, x.lineno) for x in obs if x is not o][:4]}" if len(obs) > 1 else "")
+                              + ": for a bind whose name needs escaping the two spaces differ (KeyError / value of another row or "
+                                "parameter / parameter silently not rewritten)", loc(o.lineno))
+            else:
+                sp = sorted({x for o in definite for x in (o.recv_space, o.idx_space) if x in KS.DEFINITE})
+                ctx.ok(key, f"{len(definite)} use(s), all {SPACE_WORD[sp[0]] if sp else '?'}", nontrivial=len(obs) > 1)
+    ctx.require(nsinks >= 6, f"only {nsinks} placeholder-name sinks found (bindparam_string, expanding parameters, insertmanyvalues expected)")
+    missing = sorted(set(KS.ATTR_DECL) - seen_attrs)
+    ctx.require(not missing, f"declared key-space sources never read in the analysed functions (stale table?): {missing}")
+
+
+# ------------------------------------------------------------------------------------------ R5
+@R.rule("C04-R5", floor=7, template="T-SIBLING/T-PATH/T-GUARD",
+        desc="placeholders after VALUES whose value varies per parameter set are recognised: every dialect's upsert "
+             "visitor renders the SET values (and the UPDATE's WHERE) with is_upsert_set=True; visit_bindparam "
+             "evaluates the detection before any placeholder is rendered and for every bindparam() without a fixed value")
+def r5(ctx):
+    KS.upsert_producers(ctx)
+    KS.upsert_detector(ctx)
+
+
 # ------------------------------------------------------------------------------------------ self test
 R.mutant("r1-positional-forgets-numeric-dollar", DEFAULT,
          sub('            "numeric",\n            "numeric_dollar",\n        )\n        self.identifier_preparer', '            "numeric",\n        )\n        self.identifier_preparer'), "C04-R1")
@@ -363,3 +523,79 @@ R.mutant("benign-extra-escape-row", COMP, sub('                " ": "_",\n      
 R.mutant("benign-rename-inverse-map", COMP,
          sub("            reverse_escape = {v: k for k, v in self.escaped_bind_names.items()}\n            assert len(self.escaped_bind_names) == len(reverse_escape)\n            self.positiontup = [\n                reverse_escape.get(name, name) for name in positions\n            ]\n",
              "            unescape = {esc: orig for orig, esc in self.escaped_bind_names.items()}\n            assert len(self.escaped_bind_names) == len(unescape)\n            self.positiontup = [\n                unescape.get(nm, nm) for nm in positions\n            ]\n"), None)
+
+# ---- R4 (key spaces) ----
+R.mutant("r4-imv-placeholders-use-original-keys", COMP,
+         sub("                    key = escaped_bind_names.get(key, key)\n                    formatted = formatted.replace(\n",
+             "                    formatted = formatted.replace(\n"), "C04-R4")
+R.mutant("r4-imv-keys-to-replace-original", COMP,
+         sub("            keys_to_replace = all_keys.intersection(\n                escaped_bind_names.get(key, key)\n",
+             "            keys_to_replace = all_keys.intersection(\n                key\n"), "C04-R4")
+R.mutant("r4-literal-execute-pops-escaped-name", COMP,      # reverts repo commit c7cadc3
+         sub("                            render_literal_value=parameters.pop(name),\n",
+             "                            render_literal_value=parameters.pop(escaped_name),\n"), "C04-R4")
+R.mutant("r4-expanding-elements-named-after-original", COMP,
+         sub("                        escaped_name, parameter, values\n", "                        name, parameter, values\n"), "C04-R4")
+R.mutant("r4-context-parameters-keyed-by-original", DEFAULT,
+         sub("                        escaped_names.get(key, key): (\n", "                        key: (\n"), "C04-R4")
+R.mutant("r4-oracle-out-parameter-keyed-by-original", "dialects/oracle/cx_oracle.py",
+         sub("                        param[quoted_bind_names.get(name, name)] = (\n", "                        param[name] = (\n"), "C04-R4")
+R.mutant("r4-escape-map-recorded-backwards", COMP,
+         sub("                {escaped_from: name}\n", "                {name: escaped_from}\n"), "C04-R4")
+R.mutant("r4-crud-bind-keys-collected-after-translation", COMP,
+         chain(sub("        if accumulate_bind_names is not None:\n            accumulate_bind_names.add(name)\n        if visited_bindparam is not None:\n            visited_bindparam.append(name)\n\n        if not escaped_from:",
+                   "        if not escaped_from:"),
+               sub("        if escaped_from:\n            self.escaped_bind_names = self.escaped_bind_names.union(",
+                   "        if accumulate_bind_names is not None:\n            accumulate_bind_names.add(name)\n        if visited_bindparam is not None:\n            visited_bindparam.append(name)\n\n"
+                   "        if escaped_from:\n            self.escaped_bind_names = self.escaped_bind_names.union(")), "C04-R4")
+R.mutant("benign-r4-escape-lookup-in-local-helper", COMP,
+         chain(sub("            def apply_placeholders(keys, formatted):\n",
+                   "            def _esc(k):\n                return escaped_bind_names.get(k, k)\n\n            def apply_placeholders(keys, formatted):\n"),
+               sub("                    key = escaped_bind_names.get(key, key)\n                    formatted = formatted.replace(\n",
+                   "                    key = _esc(key)\n                    formatted = formatted.replace(\n")), None)
+R.mutant("benign-r4-escape-lookup-in-method", COMP,
+         chain(sub("            escaped_name = ebn.get(name, name) if ebn else name\n            parameter = self.binds[name]\n",
+                   "            escaped_name = self._escaped_name_of(name)\n            parameter = self.binds[name]\n"),
+               sub("    def _process_parameters_for_postcompile(\n",
+                   "    def _escaped_name_of(self, name):\n        ebn = self.escaped_bind_names\n        return ebn.get(name, name) if ebn else name\n\n"
+                   "    def _process_parameters_for_postcompile(\n")), None)
+R.mutant("benign-r4-rename-imv-locals", COMP,
+         chain(sub("            all_keys = set(parameters[0])\n", "            dbapi_keys = set(parameters[0])\n"),
+               sub("            keys_to_replace = all_keys.intersection(\n", "            keys_to_replace = dbapi_keys.intersection(\n"),
+               sub("                for key in all_keys.difference(keys_to_replace)\n", "                for key in dbapi_keys.difference(keys_to_replace)\n")), None)
+
+# ---- R5 (upsert producers / detector) ----
+_DETECT = (
+    "        # Detect parametrized bindparams in upsert SET clause for issue #13130\n"
+    "        if (\n"
+    "            is_upsert_set\n"
+    "            and bindparam.value is None\n"
+    "            and bindparam.callable is None\n"
+    "            and self._insertmanyvalues is not None\n"
+    "        ):\n"
+    "            self._insertmanyvalues = self._insertmanyvalues._replace(\n"
+    "                has_upsert_bound_parameters=True\n"
+    "            )\n"
+    "\n"
+)
+R.mutant("r5-detection-moved-below-early-returns", COMP,
+         chain(sub(_DETECT + "        if not skip_bind_expression:\n", "        if not skip_bind_expression:\n"),
+               sub("        name = self._truncate_bindparam(bindparam)\n\n        if name in self.binds:\n",
+                   _DETECT + "        name = self._truncate_bindparam(bindparam)\n\n        if name in self.binds:\n")), "C04-R5")
+R.mutant("r5-detection-only-for-required-parameters", COMP,
+         sub("            and bindparam.value is None\n            and bindparam.callable is None\n            and self._insertmanyvalues is not None\n",
+             "            and bindparam.required\n            and self._insertmanyvalues is not None\n"), "C04-R5")
+R.mutant("r5-sqlite-set-value-not-flagged", "dialects/sqlite/base.py",
+         sub("                value.self_group(), is_upsert_set=True, **set_kw\n", "                value.self_group(), **set_kw\n"), "C04-R5")
+R.mutant("r5-pg-unmatched-set-value-not-flagged", "dialects/postgresql/base.py",
+         sub("                    is_upsert_set=True,\n                    **set_kw,\n", "                    **set_kw,\n"), "C04-R5")
+R.mutant("benign-r5-flag-passed-through-kwargs-dict", "dialects/sqlite/base.py",
+         chain(sub("        set_kw = dict(kw)\n        set_kw.update(use_schema=False)\n", "        set_kw = dict(kw)\n        set_kw.update(use_schema=False, is_upsert_set=True)\n"),
+               sub("                value.self_group(), is_upsert_set=True, **set_kw\n", "                value.self_group(), **set_kw\n"),
+               sub("                    is_upsert_set=True,\n                    **set_kw,\n", "                    **set_kw,\n")), None)
+R.mutant("benign-r5-detection-in-helper-method", COMP,
+         chain(sub(_DETECT + "        if not skip_bind_expression:\n",
+                   "        self._note_upsert_parameter(bindparam, is_upsert_set)\n\n        if not skip_bind_expression:\n"),
+               sub("    def render_bind_cast(self, type_, dbapi_type, sqltext):\n        raise NotImplementedError()\n",
+                   "    def _note_upsert_parameter(self, bindparam, is_upsert_set):\n" + _DETECT.replace("        # Detect", "        # detect") +
+                   "    def render_bind_cast(self, type_, dbapi_type, sqltext):\n        raise NotImplementedError()\n")), None)
